@@ -111,6 +111,14 @@ typedef unique_lock<recursive_mutex> lock_guard;
 
 #endif
 
+#ifdef CPPCMS_VERIF
+// Verification hook (guarded): lets a test harness widen scheduling windows between critical sections.
+extern "C" void cppcms_verif_yield(char const *site) __attribute__((weak));
+#define CPPCMS_VERIF_YIELD(site) do { if(cppcms_verif_yield) cppcms_verif_yield(site); } while(0)
+#else
+#define CPPCMS_VERIF_YIELD(site) do {} while(0)
+#endif
+
 class event_loop_impl {
 public:
 	
@@ -550,6 +558,7 @@ private:
 			dispatch_queue_.pop_front();
 			
 			data_mutex_.unlock();
+			CPPCMS_VERIF_YIELD("loop.before_handler");
 			try {
 				
 				exec();
@@ -597,6 +606,7 @@ private:
 			polling_ = true;
 			try {
 				data_mutex_.unlock();
+				CPPCMS_VERIF_YIELD("loop.before_poll");
 				n = reactor_->poll(evs,evs_size,int(ptime::milliseconds(wait_time)),poll_error);
 			}
 			catch(...) {
